@@ -187,6 +187,77 @@ def proxy_stream(ctx, res, n):
                     break
 
 
+def boundary_stream(ctx, res, n):
+    """fields with declared bounds x every boundary value derived from the declaration (exactly at / just beyond each bound; strings
+    whose length changes under the declared transformations) x the routes by which a value reaches a configuration; what is then
+    held must satisfy the declaration, read declaratively (F.satisfies), and be accepted unchanged by its own field"""
+    import cincoconfig as cc
+    import props.c05 as c05
+    rng = ctx.rng
+    tmp, keypath = P.setup(ctx)
+    done = 0
+    for _ in range(n * 8):
+        if done >= n:
+            break
+        f = F.gen_field(rng, 0, scalar_only=True)
+        if f["k"] == "string" and rng.random() < 0.5:
+            # the combinations in which the stored form and the tested form can differ
+            f = {"k": "string", "required": rng.random() < 0.3, "case": rng.choice(["lower", "upper"]),
+                 "strip": rng.choice([True, "x", "X", "xX", "ab", "-_"]) if rng.random() < 0.7 else None}
+            f = {k: v for k, v in f.items() if v is not None}
+            f[rng.choice(["min_len", "max_len"])] = rng.choice([1, 2, 3, 4, 6])
+            if rng.random() < 0.3:
+                f["max_len"] = f.get("min_len", 0) + rng.choice([0, 1, 3]) if "min_len" in f else f["max_len"]
+        crafted = F.crafted_values(f)
+        if not crafted or f["k"] in ("any", "challenge", "secure", "filename") or c05.has_custom(f) or c05.finding_tag(f, None):
+            continue
+        done += 1
+        s = cc.Schema()
+        try:
+            s.x = F.build_field(f, tmp)
+            s.sub.y = F.build_field(f, tmp)
+            s.lst = cc.ListField(F.build_field(f, tmp))
+            s.dct = cc.DictField(cc.StringField(), F.build_field(f, tmp))
+        except Exception:  # noqa
+            continue
+        try:
+            cfg = s()
+        except Exception:  # noqa
+            continue
+        cfg.lst = []
+        cfg.dct = {}
+        for v in crafted:
+            routes = [("attr", lambda: setattr(cfg, "x", v), lambda: [cfg.x]), ("dotted", lambda: cfg.__setitem__("sub.y", v), lambda: [cfg.sub.y]),
+                      ("load", lambda: cfg.load_tree({"x": v}), lambda: [cfg.x]), ("append", lambda: cfg.lst.append(v), lambda: list(cfg.lst)),
+                      ("dict", lambda: cfg.dct.__setitem__("k", v), lambda: list(cfg.dct.values()))]
+            for name, do, held in routes:
+                if name == "load" and not isinstance(v, (str, int, float)):
+                    continue
+                try:
+                    do()
+                    outcome = "ok"
+                except Exception:  # noqa
+                    outcome = "rejected"
+                case = {"stream": "boundary", "field": f, "route": name, "value": F.enc_val(v)}
+                res.case(stable([f, name, F.enc_val(v)]) if outcome == "ok" else None, sample=case if done < 2 and name == "attr" else None,
+                         kind="boundary:%s:%s:%s" % (f["k"], name, outcome))
+                for h in held():
+                    if h is None:
+                        continue
+                    sat = F.satisfies(f, h)
+                    try:
+                        again = s._fields["x"].validate(cfg, h)
+                        stable_ = c05.same(again, h)
+                    except Exception:  # noqa
+                        stable_ = False
+                    if sat is False or not stable_:
+                        res.violate("C01:holds-undeclared:" + name, "a configuration holds a value that does not satisfy its field's declared constraints "
+                                    "(or that its own field does not accept unchanged)", dict(case, held=F.enc_val(h), satisfies=sat, accepted_unchanged=stable_))
+                        cfg.lst = []
+                        cfg.dct = {}
+                        break
+
+
 def run(ctx, n_quick=250, n_thorough=8000):
     res = Result()
 
@@ -195,6 +266,7 @@ def run(ctx, n_quick=250, n_thorough=8000):
         oracle_stepwise(res, case, sk, ops, tmp, keypath)
     P.run_stream(ctx, res, "C01", ctx.n(n_quick, n_thorough), orc)
     proxy_stream(ctx, res, ctx.n(150, 5000))
+    boundary_stream(ctx, res, ctx.n(120, 3000))
     return res
 
 
